@@ -99,6 +99,8 @@ def p_seq(s, short=True):
 
 
 def c_str(s):
+    if s in KNOWN_STR:
+        return "k_" + s
     return core.coq_str(s)
 
 
@@ -408,7 +410,11 @@ def c_names(names):
     return "[%s]" % ";".join(c_str(n) for n in names)
 
 
-IMPORTS = "From TxV Require Import Core.Base Core.Show Model.RrelSyntax Model.Rrel.\nOpen Scope string_scope."
+KNOWN_STR = ATTRS + TYPES + NAMEPOOL
+IMPORTS = ("From TxV Require Import Core.Base Core.Show Model.RrelSyntax Model.Rrel.\nOpen Scope string_scope.\n"
+           + "\n".join("Definition k_%s : list N := %s." % (x, core.coq_str(x)) for x in KNOWN_STR)
+           + "\nDefinition runq F m sq o names T px : string := (show_fres (find F m true sq o names T px) ++ \"|\" ++ "
+             "show_bool (find_hit F m true sq o names T))%string.")
 
 
 def fuel(rows, names):
@@ -642,9 +648,14 @@ def split_names(name, split):
 
 
 def run(chk):
+    import time
+    t0 = time.time()
+    dbg = os.environ.get('C11_DEBUG')
     chk.prove([])
-    nfind = 260 if chk.thorough else 56
-    nglue = 160 if chk.thorough else 36
+    if dbg:
+        print('prove', time.time() - t0)
+    nfind = 260 if chk.thorough else 44
+    nglue = 160 if chk.thorough else 28
     cases = load_corpus()
     ncorpus = len(cases)
     for i in range(nfind):
@@ -657,6 +668,8 @@ def run(chk):
     nproc = max(1, min(core.NPROC, len(cases)))
     chunks = [list(range(i, len(cases), nproc)) for i in range(nproc)]
     outs = core.run_impl_parallel("c11", [{"cases": [skel[i] for i in ch]} for ch in chunks])
+    if dbg:
+        print('phaseA', time.time() - t0)
     for ch, o in zip(chunks, outs):
         for i, x in zip(ch, o):
             c = cases[i]
@@ -675,13 +688,15 @@ def run(chk):
         else:
             pc.pop("ast", None)
     outs = core.run_impl_parallel("c11", [{"cases": [payload_cases[i] for i in ch]} for ch in chunks])
+    if dbg:
+        print('phaseB', time.time() - t0)
     impl = [None] * len(cases)
     for ch, o in zip(chunks, outs):
         for i, x in zip(ch, o):
             impl[i] = x
 
     disagreements, failures = [], []
-    defs, exprs, meta = [], [], []     # meta: per Coq expr -> (case idx, query idx or ref idx, ...)
+    exprs, meta, groups = [], [], []     # meta: per Coq expr -> (case idx, query idx or ref idx, ...)
 
     def machinery(ci, what, detail):
         disagreements.append({"case": {"index": ci, "model": cases[ci].get("model"), "corpus": cases[ci].get("corpus")}, "impl": detail, "model": what})
@@ -694,7 +709,8 @@ def run(chk):
         if "cls_expected" in c and [r_["cls"] for r_ in rows] != c["cls_expected"]:
             machinery(ci, "object numbering of generator and runner differ", [r_["cls"] for r_ in rows])
             continue
-        defs.append("Definition m%d : model := %s." % (ci, c_table(rows)))
+        qterms = []
+        nmeta = len(meta)
         if c["kind"] == "find":
             for qi, (q, res) in enumerate(zip(c["queries"], o["results"])):
                 if res.get("tree") is None:
@@ -708,11 +724,10 @@ def run(chk):
                 if "names" in q and q["names"] != names:
                     machinery(ci, "name splitting differs from the generator's parts", {"name": q["name"], "parts": names})
                     continue
-                defs.append("Definition e%d_%d : seq := %s." % (ci, qi, c_seq(sq)))
                 nm_term = c_names(names) if isinstance(q["name"], list) else "(split_name %s %s)" % (c_str(q.get("split", ".")), c_str(q["name"]))
                 F = fuel(rows, names)
-                args = "%d m%d true e%d_%d %d %s %s" % (F, ci, ci, qi, q["start"], nm_term, core.coq_opt(None if q["cls"] is None else c_str(q["cls"])))
-                exprs.append("(show_fres (find %s %s) ++ \"|\" ++ show_bool (find_hit %s))%%string" % (args, core.coq_bool(q["proxy"]), args))
+                qterms.append("runq %d m %s %d %s %s %s" % (F, c_seq(sq), q["start"], nm_term,
+                              core.coq_opt(None if q["cls"] is None else c_str(q["cls"])), core.coq_bool(q["proxy"])))
                 meta.append((ci, qi, sq, names))
         else:
             if o.get("r", "").startswith(("GRAMMAR-ERR", "SYN-ERR", "ERR", "RUNNER-ERR")):
@@ -727,13 +742,21 @@ def run(chk):
                 continue
             for ri, ref in enumerate(o["refs"]):
                 names = split_names(ref["name"], c["split"] or ".")
-                defs.append("Definition e%d_%d : seq := %s." % (ci, ri, c_seq(sq)))
                 F = fuel(rows, names)
-                args = "%d m%d true e%d_%d %d (split_name %s %s) (Some %s)" % (F, ci, ci, ri, ref["i"], c_str(c["split"] or "."), c_str(ref["name"]), c_str(c["cls"]))
-                exprs.append("(show_fres (find %s %s) ++ \"|\" ++ show_bool (find_hit %s))%%string" % (args, core.coq_bool(c["proxy"]), args))
+                qterms.append("runq %d m %s %d (split_name %s %s) (Some %s) %s" % (F, c_seq(sq), ref["i"], c_str(c["split"] or "."),
+                              c_str(ref["name"]), c_str(c["cls"]), core.coq_bool(c["proxy"])))
                 meta.append((ci, ri, sq, names))
+        if qterms:
+            exprs.append("(let m := %s in sjoin \";\" [%s])%%string" % (c_table(rows), ";\n ".join(qterms)))
+            groups.append(len(qterms))
 
-    vals, errs = core.coq_eval("C11", IMPORTS, exprs, shard=150, defs="\n".join(defs))
+    gvals, errs = core.coq_eval("C11", IMPORTS, exprs, shard=40)
+    vals = []
+    for n, gv in zip(groups, gvals):
+        parts = gv.split(";") if gv is not None else []
+        vals += parts if len(parts) == n else [None] * n
+    if dbg:
+        print('coq', time.time() - t0)
     if errs:
         disagreements.append({"case": "coq evaluation", "model": errs[:2]})
     model_res = {}
